@@ -82,6 +82,43 @@ pub fn eval_program(p: &RProgram, pr: &Printed, r: &Rendered) -> Result<(), (Str
     well_formed(&r.text, &folds).map_err(|e| ("ill-formed".to_string(), e))
 }
 
+/// One session, several versions of the same document: open, fold, replace the whole text by
+/// another layout, fold, close, re-open in a third layout, fold. Every answer must describe
+/// the text the server holds at that moment (no state may survive between requests).
+pub fn eval_multi_step(p: &RProgram, pr: &Printed) -> Result<(), (String, String)> {
+    let l1 = render(&pr.toks, Layout::Lines, &[], &comment_text);
+    let l2 = render(&pr.toks, Layout::Minimal, &[], &comment_text);
+    let starts: Vec<usize> = pr.decl_spans.iter().map(|s| s.0).collect();
+    let l3 = render(&pr.toks, Layout::Pretty, &starts, &comment_text);
+    let mut s = Session::new(false);
+    let params = doc_request_params("textDocument/foldingRange", URI);
+    s.open(URI, &l1.text);
+    let a = s.request("textDocument/foldingRange", params.clone());
+    s.change(URI, json!([{"text": l2.text}]));
+    let b = s.request("textDocument/foldingRange", params.clone());
+    s.close(URI);
+    s.open(URI, &l3.text);
+    let c = s.request("textDocument/foldingRange", params);
+    let o = s.run();
+    if let Some(e) = o.error.clone().or(o.frame_error.clone()) {
+        return Err(("error".into(), e));
+    }
+    let r = o.responses();
+    for (id, rend, step) in [(a, &l1, "after didOpen"), (b, &l2, "after a full-text didChange"), (c, &l3, "after close and re-open")] {
+        let got: Vec<(u64, u64)> = r
+            .get(&id)
+            .and_then(|x| x.get("result"))
+            .and_then(|x| x.as_array())
+            .map(|x| x.iter().map(|f| (f["startLine"].as_u64().unwrap_or(u64::MAX), f["endLine"].as_u64().unwrap_or(u64::MAX))).collect())
+            .unwrap_or_default();
+        let want = expected_folds(p, pr, rend);
+        if got != want {
+            return Err(("stale-or-wrong-after-document-update".into(), format!("{}: got {:?}, expected {:?}", step, got, want)));
+        }
+    }
+    Ok(())
+}
+
 pub fn run(tier: Tier) -> Report {
     let mut rep = Report::new("C17", tier);
     let items = progs::syntactic_family(tier);
@@ -94,6 +131,10 @@ pub fn run(tier: Tier) -> Report {
         .flat_map_iter(|(i, it)| {
             let pr = print_program(&it.program);
             let mut out = vec![];
+            evals.fetch_add(1, Ordering::Relaxed);
+            if let Err((kind, detail)) = eval_multi_step(&it.program, &pr) {
+                out.push(Failure { key: format!("fold:{}", kind), case: json!({"text": render_plain(&pr.toks, Layout::Lines).text, "family": it.family, "multi_step": true}), detail });
+            }
             for v in variants(&pr, it.focus_decl, i % 97 == 0) {
                 // single-gap comment variants only where they can matter for lines: all of them
                 let r = render(&pr.toks, if v.gaps.len() == 1 { Layout::Lines } else { v.layout }, &v.gaps, &comment_text);
@@ -135,7 +176,7 @@ pub fn run(tier: Tier) -> Report {
     rep.evaluations = rep.states;
     rep.traces_validated = rep.states;
     rep.distinct_nontrivial = n_valid;
-    rep.rule = "exactness: generated syntactically valid programs x 6 layouts x a comment line in every gap of the focus declaration (token-per-line layout, so every gap is a line) x comments everywhere; well-formedness: every sequence of <= k tokens of the token alphabet, blank- or newline-separated; distinct_nontrivial = texts with an exact expected fold list".into();
+    rep.rule = "exactness: generated syntactically valid programs x 7 layouts, plus per program one session that opens, replaces (full text), closes and re-opens the document in three layouts with a fold request after each step, x a comment line in every gap of the focus declaration (token-per-line layout, so every gap is a line) x comments everywhere; well-formedness: every sequence of <= k tokens of the token alphabet, blank- or newline-separated; distinct_nontrivial = texts with an exact expected fold list".into();
     rep.bounds = json!({"programs": items.len(), "token_soup_max": tier.pick(3, 4)});
     rep.sample(json!({"text": "// doc\nproc\nmain\n(\n)\n{\n}\n", "expected": [[1, 6]]}));
     rep.assumptions = vec!["line numbers from the independent LSP text model lsptext".into()];
